@@ -4,7 +4,7 @@ use crate::gen::*;
 use rand::Rng;
 
 fn spec(input: Vec<u8>, ecl: Option<usize>, mode: Option<usize>, version: Option<usize>, mask: Option<usize>, tag: String) -> BuildSpec {
-    BuildSpec { input, ecl, mode, version, mask, grp: 0, tag }
+    BuildSpec { input, ecl, mode, version, mask, grp: 0, tag, lite: false }
 }
 
 /// All 160 (version, level) cells, several boundary lengths each, modes and forced masks rotating so that
@@ -41,6 +41,242 @@ pub fn cells(seed: u64, reps: usize, vmax_full: usize) -> Vec<BuildSpec> {
                     let n = r.gen_range(lo..=cap);
                     out.push(spec(payload(&mut r, m3, n, true), None, None, None, None, tag("default")));
                 }
+            }
+        }
+    }
+    out
+}
+
+/// C04: forced (version, level, mask) cells with a short payload.  Thorough: all 1 280; quick: a Latin-square
+/// schedule of 320 in which every version meets 8 (level, mask) pairs and every pair meets 10 versions.
+pub fn formats(seed: u64, thorough: bool) -> Vec<BuildSpec> {
+    let mut out = Vec::new();
+    let mut r = rng(seed, 2);
+    for v in 1..=40usize {
+        for e in 0..4usize {
+            for m in 0..8usize {
+                if !thorough && (e * 8 + m) % 4 != v % 4 { continue; }
+                let mode = (v + e + m) % 3;
+                let n = 1 + (v + m) % 3;
+                out.push(spec(payload(&mut r, mode, n, true), Some(e), None, Some(v), Some(m), format!("fmt:{v}:{e}:{m}")));
+            }
+        }
+        // automatic selection of each option
+        let e = v % 4;
+        let cap = capacity(2, 2, v);
+        let lo = if v == 1 { 0 } else { capacity(2, 2, v - 1) + 1 };
+        let n = r.gen_range(lo..=cap);
+        out.push(spec(payload(&mut r, 2, n, true), None, None, None, None, format!("fmt-auto:{v}:all")));
+        out.push(spec(payload(&mut r, 1, 3, true), Some(e), None, Some(v), None, format!("fmt-auto:{v}:mask")));
+        out.push(spec(payload(&mut r, 0, 5, true), None, Some(2), Some(v), Some(v % 8), format!("fmt-auto:{v}:level")));
+    }
+    out
+}
+
+/// C05: every capacity threshold (mode, level, version) at cap-1, cap, cap+1 with automatic version; every forced
+/// version against three lengths; lengths far beyond version 40.
+pub fn thresholds(seed: u64, thorough: bool) -> Vec<BuildSpec> {
+    let mut out = Vec::new();
+    let mut r = rng(seed, 3);
+    for mode in 0..3usize {
+        for e in 0..4usize {
+            for v in 1..=40usize {
+                let cap = capacity(mode, e, v);
+                for (i, n) in [cap.saturating_sub(1), cap, cap + 1].into_iter().enumerate() {
+                    let forced_mode = (v + i) % 2 == 0;
+                    let mut s = spec(payload(&mut r, mode, n, !forced_mode), Some(e), if forced_mode { Some(mode) } else { None }, None,
+                                     if (v + e + i) % 3 == 0 { Some((v + i) % 8) } else { None }, format!("thr:{mode}:{e}:{v}:{i}"));
+                    // full re-decoding everywhere in thorough; on small versions and one level of the larger ones in quick
+                    s.lite = !(thorough || v <= 10 || (e == v % 4 && i == 1));
+                    out.push(s);
+                }
+                // forced version: exactly enough, one too many characters, comfortably small
+                for (i, n) in [cap, cap + 1, cap / 3].into_iter().enumerate() {
+                    let mut s = spec(payload(&mut r, mode, n, false), Some(e), Some(mode), Some(v), Some((v + e) % 8), format!("forced:{mode}:{e}:{v}:{i}"));
+                    s.lite = !(v <= 6 || (thorough && (v + e + mode) % 4 == 0));
+                    out.push(s);
+                }
+            }
+            for (i, n) in [7090usize, 10_000, 100_000, 1_000_000].into_iter().enumerate() {
+                let p = if n > 20_000 { vec![[b'7', b'A', 0xA5][mode]; n] } else { payload(&mut r, mode, n, false) };
+                let mut s = spec(p, Some(e), if i % 2 == 0 { Some(mode) } else { None },
+                                 if i >= 2 { Some(40) } else { None }, None, format!("beyond:{mode}:{e}:{i}"));
+                s.lite = true;
+                out.push(s);
+            }
+        }
+    }
+    out
+}
+
+/// C08: the same payload under all eight forced masks and the automatic one (one group), all 40 versions.
+pub fn maskgroups(seed: u64, thorough: bool) -> Vec<BuildSpec> {
+    let mut out = Vec::new();
+    let mut r = rng(seed, 4);
+    let mut grp = 0u64;
+    let reps = if thorough { 3 } else { 1 };
+    for v in 1..=40usize {
+        for e in 0..4usize {
+            if !thorough && e != v % 4 { continue; }
+            for rep in 0..reps {
+                let mode = (v + e + rep) % 3;
+                let cap = capacity(mode, e, v);
+                let lo = if v == 1 { 0 } else { capacity(mode, e, v - 1) + 1 };
+                let n = match rep { 0 => r.gen_range(lo..=cap), 1 => cap, _ => lo };
+                let p = payload(&mut r, mode, n, false);
+                grp += 1;
+                for m in 0..9usize {
+                    let mut s = spec(p.clone(), Some(e), Some(mode), Some(v), if m < 8 { Some(m) } else { None }, format!("mask:{v}:{e}:{m}"));
+                    s.grp = grp;
+                    out.push(s);
+                }
+            }
+        }
+    }
+    out
+}
+
+/// C09: every byte value at every position of short strings with digit / alphanumeric filler; all class patterns
+/// (digit / alphanumeric-only / other) up to a length bound; long strings with one odd byte.
+pub fn modes(seed: u64, thorough: bool) -> Vec<BuildSpec> {
+    let mut out = Vec::new();
+    let mut r = rng(seed, 5);
+    for len in 1..=4usize {
+        for pos in 0..len {
+            for filler in 0..2usize {
+                for b in 0..=255u8 {
+                    let mut p = payload(&mut r, filler, len, false);
+                    p[pos] = b;
+                    out.push(spec(p, if b % 5 == 0 { Some((b as usize / 5) % 4) } else { None }, None, None, None, format!("byte:{len}:{pos}:{filler}")));
+                }
+            }
+        }
+    }
+    // class patterns: 0 = digit, 1 = alphanumeric but not digit, 2 = other
+    let reps: [&[u8]; 3] = [b"0189", b"AZ $%*+-./:", b"az,#_\x00\x7f\x80\xff;@[`"];
+    let maxlen = if thorough { 8 } else { 6 };
+    for len in 0..=maxlen {
+        let total = 3usize.pow(len as u32);
+        for code in 0..total {
+            let mut c = code;
+            let p: Vec<u8> = (0..len).map(|_| { let k = c % 3; c /= 3; reps[k][r.gen_range(0..reps[k].len())] }).collect();
+            out.push(spec(p, None, None, None, None, format!("pattern:{len}")));
+        }
+    }
+    // long strings, one odd byte at a random position (or none)
+    for i in 0..(if thorough { 400 } else { 60 }) {
+        let base = i % 2;
+        let n = r.gen_range(20..600);
+        let mut p = payload(&mut r, base, n, false);
+        match i % 4 {
+            0 | 1 => { let at = r.gen_range(0..n); p[at] = if base == 0 { reps[1 + (i / 4) % 2][r.gen_range(0..10)] } else { reps[2][r.gen_range(0..13)] }; }
+            2 => { p[n - 1] = b'a'; }
+            _ => {}
+        }
+        let mut s = spec(p, None, None, None, None, format!("long:{}", i % 4));
+        s.lite = n > 150;
+        out.push(s);
+    }
+    out
+}
+
+fn content(r: &mut rand::rngs::StdRng, kind: usize, n: usize) -> Vec<u8> {
+    match kind {
+        0 => vec![0u8; n],
+        1 => vec![0xFFu8; n],
+        2 => (0..n).map(|i| if i % 2 == 0 { 0xEC } else { 0x11 }).collect(),
+        3 => payload(r, 0, n, false),
+        4 => payload(r, 1, n, false),
+        _ => (0..n).map(|_| r.gen()).collect(),
+    }
+}
+fn best_mode(p: &[u8]) -> usize {
+    if p.iter().all(|b| b.is_ascii_digit()) { 0 } else if p.iter().all(|b| ALNUM.contains(b)) { 1 } else { 2 }
+}
+
+/// C10: lengths 0..8000 (every length in thorough), contents all-zero / all-0xFF / pad look-alikes / digits /
+/// alphanumeric / random, all combinations of {unset, smallest, largest} per option.
+pub fn total(seed: u64, thorough: bool) -> Vec<BuildSpec> {
+    let mut out = Vec::new();
+    let mut r = rng(seed, 6);
+    let mut lens: Vec<usize> = Vec::new();
+    if thorough { lens.extend(0..=8000usize); } else {
+        lens.extend([0usize, 1, 2, 3, 7, 8, 15, 16, 17, 31, 32, 63, 64, 127, 128, 255, 256, 511, 512, 1023, 1024, 2047, 2048, 2952, 2953, 2954, 4095, 4096, 4296, 4297, 7088, 7089, 7090, 8000]);
+        for _ in 0..220 { let top = [40usize, 300, 3000, 8000][r.gen_range(0..4)]; lens.push(r.gen_range(0..=top)); }
+    }
+    for (i, &n) in lens.iter().enumerate() {
+        let kind = i % 6;
+        let p = content(&mut r, kind, n);
+        let bm = best_mode(&p);
+        let ecl = [None, Some(0), Some(3), Some(1), Some(2)][(i / 6) % 5];
+        let mode = match (i / 30) % 3 { 0 => None, 1 => Some(2), _ => Some(bm.max((i / 90) % 3)) };
+        let version = [None, Some(1), Some(40), None, Some(1 + i % 40)][(i / 7) % 5];
+        let mask = [None, Some(0), Some(7), None][(i / 11) % 4];
+        let mut s = spec(p, ecl, mode, version, mask, format!("len:{kind}:{}", (i / 7) % 5));
+        s.lite = !(n <= 60 || i % 16 == 0);
+        out.push(s);
+    }
+    // every combination of {unset, smallest, largest} per option on a few contents
+    let mut j = 0usize;
+    for ecl in [None, Some(0usize), Some(3)] {
+        for version in [None, Some(1usize), Some(40)] {
+            for mask in [None, Some(0usize), Some(7)] {
+                for modesel in 0..3usize {
+                    for kind in 0..6usize {
+                        let n = [0usize, 1, 9, 17, 26, 41, 78, 1273, 1274, 2953, 3057][r.gen_range(0..11)];
+                        let p = content(&mut r, kind, n);
+                        let bm = best_mode(&p);
+                        let mode = match modesel { 0 => None, 1 => Some(bm), _ => Some(2) };
+                        let mut s = spec(p, ecl, mode, version, mask, format!("combo:{}:{}:{}:{modesel}", ecl.map_or(9, |x| x), version.unwrap_or(0), mask.map_or(9, |x| x)));
+                        s.lite = !(j % 5 == 0 && (version != Some(40) || j % 25 == 0));
+                        j += 1;
+                        out.push(s);
+                    }
+                }
+            }
+        }
+    }
+    out
+}
+
+/// C02 corollary: error patterns for a symbol of (version v, level e): per block a weight in {1, t/2, t}
+/// (t = floor(ec/2)), burst or spread positions, random non-zero values.  Returns [block, position, xor] triples (1-based).
+pub fn error_pattern(r: &mut rand::rngs::StdRng, v: usize, e: usize, style: usize) -> Vec<[usize; 3]> {
+    let nb = NUM_BLOCKS[e][v - 1];
+    let ec = EC_PER_BLOCK[e][v - 1];
+    let tot = total_cw(v);
+    let short = nb - tot % nb;
+    let t = ec / 2;
+    let mut errs = Vec::new();
+    for b in 1..=nb {
+        let blen = tot / nb + if b > short { 1 } else { 0 };
+        let w = match (style + b) % 3 { 0 => 1, 1 => (t / 2).max(1), _ => t };
+        let mut pos: Vec<usize> = Vec::new();
+        if (style / 3 + b) % 2 == 0 {
+            let start = r.gen_range(1..=blen - w + 1);
+            pos.extend(start..start + w);
+        } else {
+            while pos.len() < w { let p = r.gen_range(1..=blen); if !pos.contains(&p) { pos.push(p); } }
+        }
+        for p in pos { errs.push([b, p, r.gen_range(1..=255usize)]); }
+    }
+    errs
+}
+
+pub fn corrupt_specs(seed: u64, thorough: bool) -> Vec<(BuildSpec, Vec<[usize; 3]>)> {
+    let mut out = Vec::new();
+    let mut r = rng(seed, 7);
+    let reps = if thorough { 12 } else { 1 };
+    for rep in 0..reps {
+        for v in 1..=40usize {
+            for e in 0..4usize {
+                if thorough && v > 20 && rep >= 4 { continue; }
+                let mode = (v + e + rep) % 3;
+                let cap = capacity(mode, e, v);
+                let n = if rep % 2 == 0 { cap } else { r.gen_range(0..=cap) };
+                let s = spec(payload(&mut r, mode, n, false), Some(e), Some(mode), Some(v), if rep % 3 == 0 { None } else { Some((v + rep) % 8) }, format!("corrupt:{v}:{e}"));
+                let errs = error_pattern(&mut r, v, e, rep + v);
+                out.push((s, errs));
             }
         }
     }
